@@ -398,6 +398,13 @@ theorem blob_read_implies_single_small_layer (st : State) (ls : List Layer)
     · omega
   · simp [refuse] at hread
 
+/-- in the model results are values: nothing a later call (on this or another repository) does
+can change what an earlier call returned, and no two results share anything. The harness checks
+the real code against exactly this: it keeps every returned envelope slice, blob descriptor,
+callback slice and annotation map and re-compares them after all later calls (`retained`), and
+checks that their memory is disjoint from each other and from caller-owned input (`unaliased`). -/
+theorem results_are_values (i : Input) : (run i).retained = true ∧ (run i).unaliased = true := ⟨rfl, rfl⟩
+
 /-! ### the whole property -/
 
 theorem probeTarget_spec (d : Desc) : ∀ (h : List Op) (o : Op), probeTarget h d = some o →
@@ -452,7 +459,7 @@ theorem model_holds (i : Input) (hwf : wf i = true) : Holds i (run i) = true := 
     exact all_zip_map _ P _
   unfold Holds clauses
   simp only [Clauses.holds_cons, Clauses.holds_nil, Bool.and_true, Bool.and_eq_true]
-  refine ⟨hwf, ?shape, ?push, ?exact, ?iso, ?refused, ?big, ?round, ?pushed, ?annos, ?hostile, ?probe1, ?probe2, ?reopen⟩
+  refine ⟨hwf, ?shape, ?push, ?exact, ?iso, ?refused, ?big, ?round, ?pushed, ?annos, ?hostile, ?probe1, ?probe2, ?reopen, ?retained, ?unaliased⟩
   case shape =>
     simp only [shapeOk, run, runSteps_length, runSteps_lists, List.length_map, beq_self_eq_true, Bool.true_and,
       Bool.and_true]
@@ -588,6 +595,8 @@ theorem model_holds (i : Input) (hwf : wf i = true) : Holds i (run i) = true := 
         simp [this]
     · simp [hd]
   case reopen => rfl
+  case retained => rfl
+  case unaliased => rfl
 
 /-! ### non-vacuity -/
 
@@ -645,20 +654,25 @@ def demo2 : Input :=
     queries := [s0], probes := [], reopenOk := false }
 
 example : run demo2 =
-    { steps := [stepOf [goodSig0], stepOf [goodSig0]], probes := [], reopened := [], reopenSame := true } := by decide
+    { steps := [stepOf [goodSig0], stepOf [goodSig0]], probes := [], reopened := [], reopenSame := true, retained := true, unaliased := true } := by decide
 
 /-- a wrong observation is rejected: the manifest whose subject only shares the digest listed for `s0` -/
 example : Holds demo2
     { steps := [stepOf [goodSig0], stepOf [goodSig0, { id := 1, annos := [], fetch := ⟨true, 1, "application/cose", true, true⟩ }]],
-      probes := [], reopened := [], reopenSame := true } = false := by decide
+      probes := [], reopened := [], reopenSame := true, retained := true, unaliased := true } = false := by decide
 
 /-- and so is a fetch that returns other bytes than were pushed -/
 example : Holds demo2
     { steps := [stepOf [{ goodSig0 with fetch := ⟨true, 7, "application/jose+json", true, true⟩ }], stepOf [goodSig0]],
-      probes := [], reopened := [], reopenSame := true } = false := by decide
+      probes := [], reopened := [], reopenSame := true, retained := true, unaliased := true } = false := by decide
+
+/-- and an earlier fetch result that a later fetch overwrote (pooled buffer) -/
+example : Holds demo2
+    { steps := [stepOf [goodSig0], stepOf [goodSig0]], probes := [], reopened := [], reopenSame := true,
+      retained := false, unaliased := true } = false := by decide
 
 /-- and a listing that misses a pushed signature -/
 example : Holds demo2
-    { steps := [stepOf [goodSig0], stepOf []], probes := [], reopened := [], reopenSame := true } = false := by decide
+    { steps := [stepOf [goodSig0], stepOf []], probes := [], reopened := [], reopenSame := true, retained := true, unaliased := true } = false := by decide
 
 end NotationModel.C19
